@@ -34,6 +34,7 @@ type Spec struct {
 	P       []*sh.BlockSpec `json:"prefix"`
 	A       []*sh.BlockSpec `json:"fork_a"`
 	B       []*sh.BlockSpec `json:"fork_b"`
+	Edge    *EdgeSpec       `json:"edge,omitempty"` // replay of a "fork at a bloom-window edge" history (edge.go)
 }
 
 func cloneBlocks(l []*sh.BlockSpec) []*sh.BlockSpec {
@@ -685,6 +686,17 @@ func main() {
 	if c.ReplayIn != "" {
 		var sp Spec
 		c.LoadReplay(&sp)
+		if sp.Edge != nil {
+			outs, wall := computeEdges([]*EdgeSpec{sp.Edge})
+			for _, o := range outs {
+				fmt.Printf("replay: %s\n  %d answers compared, %d raw entries compared\n", o.spec, o.res.queries, o.res.dbKeys)
+				for _, f := range o.res.findings {
+					fmt.Printf("  finding %s: %s\n", f.class, f.what)
+				}
+			}
+			recordEdges(c, outs, wall)
+			c.Finish("replay of one recorded window-edge history")
+		}
 		if sp.Probe != "" {
 			runProbes(c, ar)
 			c.Count("probe "+sp.Probe, true)
@@ -721,6 +733,14 @@ func main() {
 			jobs = append(jobs, &job{idx: len(jobs), gen: g})
 		}
 	}
+	// the window-edge history runs beside the worker pool (it is two long sequential chains)
+	edgeDone := make(chan struct{})
+	var edgeOuts []edgeOut
+	var edgeWall float64
+	go func() {
+		edgeOuts, edgeWall = computeEdges(edgeSpecs(c.Seed, c.Thorough()))
+		close(edgeDone)
+	}()
 	var wg sync.WaitGroup
 	next := make(chan *job, len(jobs))
 	for _, j := range jobs {
@@ -798,6 +818,8 @@ func main() {
 	sort.Strings(fams)
 	c.Extra["model_families"] = fams
 
+	<-edgeDone
+	recordEdges(c, edgeOuts, edgeWall)
 	if optionalProbes {
 		runProbes(c, ar)
 	}
@@ -805,7 +827,9 @@ func main() {
 	c.Finish("fork experiments per state backend: prefix P (0..4 blocks), fork A (1..4 blocks) stored and reverted block by block, fork B (0..4 blocks); 25% single block stored+reverted, 10% forks from genesis; " +
 		"blocks carry deployments, replacements, nonces, writes (incl. zero-over-nonzero, same value; zero to an absent slot injected in 13% of fork-A blocks), Cairo0 and Sierra declarations, CASM migrations (0.14.1 blocks), " +
 		"invoke transactions with events, L1-handler transactions, system-contract writes, empty blocks; node A (P, A, reverts, B) is compared with node B (P, B) on every Reader query over all numbers / block / tx / L1-message hashes ever produced, " +
-		"the state readers, the event filter and the raw database; node A's op sequence runs through C04.Model (outcomes, 13 decoded index families); non-trivial = fork depth >= 2 or a feature beyond plain writes")
+		"the state readers, the event filter and the raw database; node A's op sequence runs through C04.Model (outcomes, 13 decoded index families); non-trivial = fork depth >= 2 or a feature beyond plain writes. " +
+		"Plus the window-edge family (harness only, the filter cache is not modelled): chain of cheap event blocks to head 8191/8192/8193, events queries on node A (caches the persisted aggregated bloom window), 1..3 reverts crossing block 8191 with a query after each, fork B with other emitters/keys, " +
+		"then node A vs node B on events (full range, ranges ending/starting at the window edge, per emitter, per key), the Reader API around the edge and the raw database; quick: one history chosen by the seed, thorough: 3 heads x 3 depths x 2 backends")
 }
 
 var _ = felt.Zero
